@@ -1,7 +1,7 @@
 (* Every stream of every run of MultiRpc.v is a run of Rpc.v. *)
 From Coq Require Import List Bool Arith Lia.
 From RecordUpdate Require Import RecordUpdate.
-From GT Require Import Rpc RpcInv RpcProofs RpcSystem MultiRpc.
+From GT Require Import Rpc RpcInv RpcProofs RpcSystem MultiRpc RpcCheckV6.
 Import ListNotations.
 
 Lemma upd_length {A} (l : list A) i x : length (upd l i x) = length l.
@@ -26,14 +26,6 @@ Lemma proj_cons_other {A} i j (f : A) r : i <> j -> proj i ((j, f) :: r) = proj 
 Proof. intros H. unfold proj. cbn. destruct (Nat.eqb_spec j i); [congruence|]. reflexivity. Qed.
 
 
-(* only the serve loop's new_stream step starts a handler: evaluated on all control states *)
-Definition noinv_check (strict : bool) (v : sv) : bool :=
-  forallb (fun l => match l with
-                    | SLoop _ _ => true
-                    | _ => match vstep strict v l with Some (v', _) => Nat.eqb (invoked v v') 0 | None => true end
-                    end) all_vlbl.
-Lemma noinv_all : forall strict, forall_sv (noinv_check strict) = true.
-Proof. intros []; vm_compute; reflexivity. Qed.
 Lemma only_the_serve_loop_invokes strict v l v' em :
   match l with SLoop _ _ => False | _ => True end -> vstep strict v l = Some (v', em) -> invoked v v' = 0.
 Proof.
